@@ -410,7 +410,7 @@ def trace_inputs(trace):
         v = st.get('value', {})
         fn = st.get('sourceLocation', {}).get('function', '')
         data = v.get('data')
-        if data is None or fn not in ('gv_h', ''):
+        if data is None or (fn not in ('gv_h', '') and not fn.startswith('gv_any_')):      # gv_any_*: input generators called by a harness
             continue
         if lhs.startswith('__') or 'write_set' in lhs or lhs.endswith('_ctx') or lhs.endswith('_wrapper') \
                 or lhs in ('set', 'allow_allocate', 'allow_deallocate', 'contract_assigns_size', 'contract_frees_size'):
